@@ -242,7 +242,7 @@ pub fn run(ctx: &Ctx) -> (Stats, Report) {
     single.sort();
     single.dedup();
     for kind in KINDS {
-        let vals = pools::pool(kind, seed, if ctx.thorough { 3000 } else { 600 });
+        let vals = pools::pool(kind, seed, if ctx.thorough { 8000 } else { 1000 });
         let sref = &single;
         let vref = &vals;
         let s = par_sweep(vals.len() as u64, 16, |range, st| {
@@ -269,7 +269,7 @@ pub fn run(ctx: &Ctx) -> (Stats, Report) {
 
     // E: composite pictures (proptest)
     for kind in KINDS {
-        let per = (if ctx.thorough { 1_500_000 } else { 120_000 }) / THREADS as u32;
+        let per = (if ctx.thorough { 8_000_000 } else { 240_000 }) / THREADS as u32;
         let s = pt_run(
             &format!("C04/composite/{}", kind.name()),
             seed,
